@@ -543,6 +543,9 @@ pub struct Oracle {
     pub unfinished: bool,
     /// stop-on set: properties whose violation ends a run early (empty = all)
     pub stop_on: Vec<String>,
+    /// the backing file was damaged by something outside the protocol (scenario `extwipe`): a wipe under an
+    /// attached reader is then expected and not held against the writer
+    pub external_corruption: bool,
     /// sequentially consistent memory (false while stale values are served: CatchUp is not required then)
     pub sc: bool,
 }
@@ -583,6 +586,7 @@ impl Oracle {
             wiping: false,
             unfinished: unfinished0,
             stop_on: vec![],
+            external_corruption: false,
             sc: true,
         }
     }
@@ -622,7 +626,7 @@ impl Oracle {
                 let pre = self.pre_new.clone().unwrap();
                 self.viol("C04", "usable-segment-wiped", format!("ShmWriter::new wiped a usable segment (ver {}, gen {}, len {})", pre.ver, pre.gen, pre.len));
             }
-            if self.readers.values().any(|r| r.attached) {
+            if self.readers.values().any(|r| r.attached) && !self.external_corruption {
                 self.viol("C04", "wipe-under-attached-reader", "segment truncated while a reader is attached".to_string());
             }
         }
